@@ -37,7 +37,8 @@ Proof.
 Qed.
 
 Theorem truth_test_unshared_rejected : forall us e t c i k1 k2,
-  In (UIf t c i k1 k2) us -> has_param us i = false -> i < length e -> is_scalar (cell e i) = true ->
+  In (UIf t c i k1 k2) us -> has_param us i = false -> i < length e ->
+  (match cell e i with VNone | VInt _ => true | _ => false end) = true ->
   forall a, analyze us e <> Ok a.
 Proof.
   intros us e t c i k1 k2 _ Hp Hi Hs a. unfold analyze.
@@ -45,7 +46,7 @@ Proof.
   { apply (rejects_at us e i Hi).
     - destruct (cell e i); try discriminate; reflexivity.
     - unfold classify. destruct (cell e i); try discriminate; cbn; rewrite Hp; reflexivity. }
-  rewrite R. destruct (rejects _ true); [discriminate|]. destruct (existsb is_index us); discriminate.
+  rewrite R. destruct (rejects _ true); discriminate.
 Qed.
 
 (* ---------------- concrete refutations (tables: 0 = t, 1 = u; columns: 0 id, 1 x, 2 y) ---------------- *)
@@ -82,11 +83,19 @@ Lemma shared_truth_test_stale_refuted :
   direct_chain F0 U_shared [(1%N, [VInt 0])] = Ok [ICrit (CCmp 0 1 Gt (VInt 0)); ICrit (CCmp 0 2 Eq (VInt 2))].
 Proof. split; vm_compute; reflexivity. Qed.
 
-(* t.c.x > l[0] *)
+(* t.c.x > l[0]: repaired (3d569da).  A list that is only indexed is refused like dct["k"] / obj.attr (documented
+   InvalidRequestError); a list that is also a bound value (IN) has its item re-extracted on every construction *)
 Definition U_index (code : N) : list use := [UIndex 0 1 Gt 0 0].
-Lemma list_index_typeerror_refuted :
-  run F0 U_index empty_state [[(1%N, [VList [VInt 1; VInt 2]])]] = [TypeErr] /\
-  direct_chain F0 U_index [(1%N, [VList [VInt 1; VInt 2]])] = Ok [ICrit (CCmp 0 1 Gt (VInt 1))].
+Lemma list_index_alone_rejected :
+  run F0 U_index empty_state [[(1%N, [VList [VInt 1; VInt 2]])]] = [Rejected].
+Proof. vm_compute; reflexivity. Qed.
+Definition U_index_in (code : N) : list use := [UIn 0 2 0; UIndex 0 1 Gt 0 1].
+Lemma list_index_with_in_fresh :
+  run F0 U_index_in empty_state [[(1%N, [VList [VInt 1; VInt 2]])]; [(1%N, [VList [VInt 0; VInt 5; VInt 3]])]] =
+    [Ok [ICrit (CIn 0 2 [VInt 1; VInt 2]); ICrit (CCmp 0 1 Gt (VInt 2))];
+     Ok [ICrit (CIn 0 2 [VInt 0; VInt 5; VInt 3]); ICrit (CCmp 0 1 Gt (VInt 5))]] /\
+  map (direct_chain F0 U_index_in) [[(1%N, [VList [VInt 1; VInt 2]])]; [(1%N, [VList [VInt 0; VInt 5; VInt 3]])]] =
+    run F0 U_index_in empty_state [[(1%N, [VList [VInt 1; VInt 2]])]; [(1%N, [VList [VInt 0; VInt 5; VInt 3]])]].
 Proof. split; vm_compute; reflexivity. Qed.
 
 (* ---------------- a non-trivial history inside the guard ---------------- *)
@@ -94,15 +103,15 @@ Proof. split; vm_compute; reflexivity. Qed.
    lambda 3: s.where(h(w))  with h = code 9 *)
 Definition U_ex (code : N) : list use :=
   if N.eqb code 1 then [UFrom 0; UTabCmp 0 1 Gt 1]
-  else if N.eqb code 2 then [UColCmp 0 Lt 5; UIn 0 2 1; ULimit 2]
+  else if N.eqb code 2 then [UColCmp 0 Lt 5; UIn 0 2 1; ULimit 2; UIndex 0 1 Ne 1 0]
   else [UCallArg 0 1].
 Definition K_ex (code : N) : list N :=
   (if N.eqb code 1 then [3; 0] else if N.eqb code 2 then [2; 1; 0] else [4; 0])%N.
 Definition h_ex : list (list (N * list val)) :=
   [ [(1, [VTab 0; VInt 1]); (2, [VCol 0 1; VList [VInt 1; VInt 2]; VInt 3])];
-    [(1, [VTab 1; VInt 0]); (2, [VCol 1 1; VList []; VInt 1])];
+    [(1, [VTab 1; VInt 0]); (2, [VCol 1 1; VList [VInt 4]; VInt 1])];
     [(1, [VTab 0; VInt 7]); (3, [VFun 9 []; VInt 4])];
-    [(1, [VTab 0; VInt 2]); (2, [VCol 0 1; VList [VNone]; VInt 9]); (3, [VFun 9 [VInt 5]; VStr [97%Z]])] ]%N.
+    [(1, [VTab 0; VInt 2]); (2, [VCol 0 1; VList [VInt 7; VNone]; VInt 9]); (3, [VFun 9 [VInt 5]; VInt 8])] ]%N.
 Lemma ex_guard : forall ch, In ch h_ex -> chain_good U_ex K_ex ch /\ exists its, direct_chain F0 U_ex ch = Ok its.
 Proof.
   intros ch H. cbn in H. repeat (destruct H as [<-|H]; [split; [|eexists; vm_compute; reflexivity]|]); try contradiction;
